@@ -57,6 +57,14 @@ Theorem C15_accepts_matches_pattern : forall s,
 Proof. exact unmarshal_string_pattern. Qed.
 Print Assumptions C15_accepts_matches_pattern.
 
+(** ... and nothing else is accepted, except  id # R9  (one decimal digit after 'R' is read with
+    Atoi; 9 gives a frame of length 9, which Validate rejects). *)
+Theorem C15_accepts_only_pattern_or_R9 : forall s dst f,
+  unmarshal_string s dst = (Ok, f) ->
+  exists idp tail, s = idp ++ 35 :: tail /\ id_part_ok is_hex idp /\ (tail_ok is_hex tail \/ tail = [82; 57]).
+Proof. exact unmarshal_string_accepts_only. Qed.
+Print Assumptions C15_accepts_only_pattern_or_R9.
+
 (** Clause 3. For any byte string whatsoever the parser returns a frame or an error - never the
     outcome [Panic] - and on error the destination is exactly what it was. *)
 Theorem C15_total_and_atomic : forall s dst,
